@@ -9,7 +9,7 @@ use crate::util::{guard, par_map, Kv};
 
 pub fn meta(ctx: &Ctx) -> Meta {
     Meta {
-        rule: format!("networks of depth 2..{} over count-preserving layers {{dense 4->4 (linear, ReLU), conv 1x1 / 3x3 p1, deconv 3x3 p1 on 1x2x2, feedback[dense 4]x2, max-pool 1x1, feedback[conv 1x1]x2}} from a flat and a spatial input (flat<->spatial neighbours in both directions) x EVERY index pair a <= b x all 5 accumulations, exact small-integer data: predict vs the reference interpreter; connections spanning 5..7 layers of an 8-layer network; EVERY ordered pair of connect calls on the depth-3/4 networks: pairwise distinct sources and targets must be accepted, a second connection onto a used target (or from a used source) must be rejected or both must stay visible in predict; every first connection followed by a connect call with its indices the other way round (source above target): rejected, or the first connection must still act (additive accumulation, generic data: the result must not be bit-equal to that without the first connection); THREE connect calls with pairwise distinct sources and targets on a 5-layer network (quick: every ascending triple; thorough: every ordered triple) under add and mean: accepted, all visible; additive accumulation: Network::backward vs the dual-number derivative of the reference function for every single connection, every accepted pair and every triple. Non-trivial = reference output has >= 2 distinct non-zero entries", if ctx.tier.thorough() { 4 } else { 3 }),
+        rule: format!("networks of depth 2..{} over count-preserving layers {{dense 4->4 (linear, ReLU), conv 1x1 / 3x3 p1, deconv 3x3 p1 on 1x2x2, feedback[dense 4]x2, max-pool 1x1, feedback[conv 1x1]x2, conv 2x2 with 4 filters (1x2x2 -> 4x1x1) and deconv 2x2 (4x1x1 -> 1x2x2)}} from a flat and a spatial input (flat<->spatial neighbours in both directions) x EVERY index pair a <= b x all 5 accumulations, exact small-integer data: predict vs the reference interpreter; connections spanning 5..7 layers of an 8-layer network; EVERY ordered pair of connect calls on the depth-3/4 networks: pairwise distinct sources and targets must be accepted, a second connection onto a used target (or from a used source) must be rejected or both must stay visible in predict; every first connection followed by a connect call with its indices the other way round (source above target): rejected, or the first connection must still act (additive accumulation, generic data: the result must not be bit-equal to that without the first connection); THREE connect calls with pairwise distinct sources and targets on a 5-layer network (quick: every ascending triple; thorough: every ordered triple) under add and mean: accepted, all visible; additive accumulation: Network::backward vs the dual-number derivative of the reference function for every single connection, every accepted pair and every triple. Non-trivial = reference output has >= 2 distinct non-zero entries", if ctx.tier.thorough() { 4 } else { 3 }),
         bound: "depth <= 4 (5 for triples, 8 for long spans), element count 4, at most three connections".into(),
         exhaustive: true,
         assumptions: vec![
@@ -30,12 +30,24 @@ fn alphabet() -> Vec<L> {
         // a max-pool and a block of spatial layers
         L::Pool { k: (1, 1), s: (1, 1) },
         L::Fb { layers: vec![L::Conv { f: 1, k: (1, 1), s: (1, 1), p: (0, 0), d: (1, 1), act: Act::Linear, drop: None }], loops: 2, inskips: false, outskips: false, acc: Acc::Add },
+        // layers that keep the element count but change the arrangement: 1x2x2 -> 4x1x1 and back (connections between
+        // spatial tensors of different shape and equal count)
+        L::Conv { f: 4, k: (2, 2), s: (1, 1), p: (0, 0), d: (1, 1), act: Act::Linear, drop: None },
+        L::Deconv { f: 1, k: (2, 2), s: (1, 1), p: (0, 0), act: Act::Linear, drop: None },
     ]
 }
 
 /// every layer kind may be the source of a connection (a max-pool source used to be refused: "Unknown shape!")
 fn source_ok(_net: &Net, _a: usize) -> bool {
     true
+}
+
+/// the statement quantifies over index pairs with EQUAL element counts (the inputs of layers a and b)
+fn counts_match(net: &Net, a: usize, b: usize) -> bool {
+    match ref_shapes(net) {
+        Ok(sh) => a < sh.len() && b < sh.len() && sh[a].inp.count() == sh[b].inp.count(),
+        Err(_) => false,
+    }
 }
 
 pub fn base_nets(max_depth: usize) -> Vec<Net> {
@@ -343,7 +355,7 @@ pub fn cases(ctx: &Ctx) -> Vec<Kv> {
         }
         for b in 0..n {
             for a in 0..=b {
-                if !source_ok(net, a) {
+                if !source_ok(net, a) || !counts_match(net, a, b) {
                     continue;
                 }
                 for x in 1..=n {
@@ -360,6 +372,7 @@ pub fn cases(ctx: &Ctx) -> Vec<Kv> {
     for net in &nets {
         let n = net.layers.len();
         let pairs: Vec<(usize, usize)> = (0..n).flat_map(|b| (0..=b).map(move |a| (a, b))).collect();
+        let pairs: Vec<(usize, usize)> = pairs.into_iter().filter(|&(a, b)| counts_match(net, a, b)).collect();
         for &(a, b) in &pairs {
             if !source_ok(net, a) {
                 continue;
